@@ -141,8 +141,12 @@ def int_from_bytes(data, byteorder="big", *, signed=False):
     r = 0
     for i, o in enumerate(octs):
         r = r + (o << (8 * i) if isinstance(o, int) else o * (1 << (8 * i)))
-    if signed:
-        raise NotImplementedError
+    if signed and octs:
+        top = octs[-1]
+        sign = (top >> 7) if isinstance(top, int) else (top >> 7)
+        r = r - sign * (1 << (8 * len(octs)))
+    if isinstance(r, SInt):
+        r = r.norm()
     return r
 
 
